@@ -12,6 +12,10 @@
    dialProxy / proxyRequestDial         proxy_attempt
    dialOne                              dial_mode
    Dial (launch/stagger/result loop)    dial_step / run_dial
+   Stream.ReceiveFrameWithEnd (clear)   split_frames        (bytes -> Msg.v frames)
+   GetClassAdWithMaxSize (no key)       read_ad             (over Msg.v / Decode.v readers)
+   readReverseConnect +
+   ReadReverseConnectAd + AdString      decode_frames / decode_wire / decode_greeting
 
    Connections are labelled by the peer that opened them ([peer]); what a
    connection sends first is a [greeting].  Scheduling (arrival order, which
@@ -20,6 +24,7 @@
    interleavings. *)
 From Coq Require Import List NArith ZArith Bool.
 From Cedar Require Import Lib.Bytes gen.FactsC20.
+From Cedar Require gen.Consts Model.Msg Model.Decode.
 Import ListNotations.
 
 Definition peer := N.
@@ -328,3 +333,201 @@ Definition attempt_outcomes (atts : list (bytes * list sev)) : list (option outc
 
 Definition dial_full (sequential : bool) (atts : list (bytes * list sev)) (sched : list dev) : dial :=
   run_dial sequential (attempt_outcomes atts) sched.
+
+(* ======================================================================== *)
+(* ---- the opening message ON THE WIRE: bytes -> greeting ------------------ *)
+(* readReverseConnect (ccb.go): msg.GetInt, then ReadReverseConnectAd: the
+   command must be CommandReverseConnect, then GetClassAdWithMaxSize
+   (maxControlAdSize); the requester then takes AdString(ad, "ClaimId").
+   Typed values are those of Model/Msg.v (get_int = the 8-byte big-endian
+   two's-complement reader), bounded strings those of Model/Decode.v
+   (get_string_max, C13's model of GetStringWithMaxSize).  The reverse
+   connection is a fresh cleartext stream (no key).
+
+   External, hence parameters (quantified in the theorems, a concrete simple
+   instance below for the correspondence run): the ClassAd expression parser
+   [parses] (parseAndInsertExpression returns nil) and the evaluator
+   [claim_of] (string value of ClaimId in the ad built from the accepted
+   expression strings; None when absent or not a string). *)
+
+Inductive wire_tail := TClosed | TSilent.      (* after its bytes the peer closes / stays silent *)
+Inductive frames_end := FeClean | FeTrunc | FeBad.
+
+(* Stream.ReceiveFrameWithEnd on a cleartext stream, as often as the bytes
+   allow: 5-byte header (end flag, 4-byte big-endian length); a length above
+   MaxMessageSize or an end flag above 10 is an error; ReadFrame: EOM iff the
+   end flag is not 0.  The frames before the first bad / incomplete one are
+   delivered (the reader pulls frames lazily). *)
+Fixpoint split_frames (fuel : nat) (w : bytes) : list Msg.mframe * frames_end :=
+  match fuel with
+  | O => ([], FeTrunc)
+  | S f =>
+      match w with
+      | [] => ([], FeClean)
+      | flag :: l0 :: l1 :: l2 :: l3 :: rest =>
+          let len := be_dec [l0; l1; l2; l3] in
+          if (Consts.MaxMessageSize <? len)%N then ([], FeBad)
+          else if (Consts.FlagMaxRecvWE <? b2n flag)%N then ([], FeBad)
+          else if Msg.len_lt rest len then ([], FeTrunc)
+          else let '(fs, e) := split_frames f (skipn (N.to_nat len) rest) in
+               ((firstn (N.to_nat len) rest, negb (b2n flag =? 0)%N) :: fs, e)
+      | _ => ([], FeTrunc)
+      end
+  end.
+Definition frames_of (w : bytes) : list Msg.mframe * frames_end := split_frames (S (length w)) w.
+
+Definition secret_marker_c20 : bytes := [x5a; x4b; x4d].   (* "ZKM" *)
+
+(* one budgeted string of getClassAdFromMessageWithMaxSize: remainingBytes :=
+   maxSize - totalBytesRead; <= 0 is an error; else GetStringWithMaxSize *)
+Definition budget_str (cap total : Z) (r : Msg.reader) : Msg.reader * Msg.mres bytes :=
+  if (cap - total <=? 0)%Z then (r, Msg.MErr Msg.MOther)
+  else Decode.get_string_max false (cap - total) r.
+Definition charge_str (total : Z) (s : bytes) : Z := (total + Z.of_N (lenN s) + 1)%Z.
+
+(* the expression loop "for i := 0; i < int(numExprs); i++"; [left] = numExprs - i.
+   Every iteration charges at least one byte, so after [cap] iterations the
+   budget test fails: fuel cap+1 is never exhausted before that. *)
+Fixpoint read_exprs (parses : bytes -> bool) (cap : Z) (fuel : nat) (left : Z) (r : Msg.reader)
+         (total : Z) (acc : list bytes) : Msg.reader * Msg.mres (list bytes * Z) :=
+  if (left <=? 0)%Z then (r, Msg.MOk (rev acc, total)) else
+  match fuel with
+  | O => (r, Msg.MErr Msg.MOther)
+  | S f =>
+      match budget_str cap total r with
+      | (r1, Msg.MOk s) =>
+          let total1 := charge_str total s in
+          if bytes_eqb s secret_marker_c20 then
+            match budget_str cap total1 r1 with     (* getSecretStringWithMaxSize: no key, the toggle is a no-op *)
+            | (r2, Msg.MOk s2) =>
+                if parses s2 then read_exprs parses cap f (left - 1)%Z r2 (charge_str total1 s2) (s2 :: acc)
+                else (r2, Msg.MErr Msg.MOther)
+            | (r2, Msg.MErr e) => (r2, Msg.MErr e)
+            | (r2, Msg.MPanic) => (r2, Msg.MPanic)
+            end
+          else if parses s then read_exprs parses cap f (left - 1)%Z r1 total1 (s :: acc)
+          else (r1, Msg.MErr Msg.MOther)
+      | (r1, Msg.MErr e) => (r1, Msg.MErr e)
+      | (r1, Msg.MPanic) => (r1, Msg.MPanic)
+      end
+  end.
+
+(* GetClassAdWithMaxSize(cap), cap > 0: expression count, expressions, MyType,
+   TargetType (both only Set as attributes of those names; they are read under
+   the same budget).  Result: the accepted expression strings. *)
+Definition read_ad (parses : bytes -> bool) (cap : Z) (r : Msg.reader) : Msg.reader * Msg.mres (list bytes) :=
+  match Msg.get_int r with
+  | (r1, Msg.MOk n) =>
+      match read_exprs parses cap (S (Z.to_nat cap)) n r1 0%Z [] with
+      | (r2, Msg.MOk (es, total)) =>
+          match budget_str cap total r2 with
+          | (r3, Msg.MOk my) =>
+              match budget_str cap (charge_str total my) r3 with
+              | (r4, Msg.MOk _) => (r4, Msg.MOk es)
+              | (r4, Msg.MErr e) => (r4, Msg.MErr e)
+              | (r4, Msg.MPanic) => (r4, Msg.MPanic)
+              end
+          | (r3, Msg.MErr e) => (r3, Msg.MErr e)
+          | (r3, Msg.MPanic) => (r3, Msg.MPanic)
+          end
+      | (r2, Msg.MErr e) => (r2, Msg.MErr e)
+      | (r2, Msg.MPanic) => (r2, Msg.MPanic)
+      end
+  | (r1, Msg.MErr e) => (r1, Msg.MErr e)
+  | (r1, Msg.MPanic) => (r1, Msg.MPanic)
+  end.
+
+(* what readReverseConnect + AdString deliver from the frames of a connection *)
+Inductive decoded :=
+| DcHello (cmd : Z) (claim : option bytes)   (* cmd <> CCB_REVERSE_CONNECT: the ad is not read, claim = None *)
+| DcBad                                      (* read / parse error with the bytes at hand *)
+| DcConn                                     (* the frames ran out: ReadFrame failed *)
+| DcPanic.
+
+Definition decode_frames (parses : bytes -> bool) (claim_of : list bytes -> option bytes) (cap : Z)
+           (fs : list Msg.mframe) : decoded :=
+  match Msg.get_int (Msg.reader_of fs) with
+  | (r1, Msg.MOk cmd) =>
+      if Z.eqb cmd ccb_reverse_connect then
+        match read_ad parses cap r1 with
+        | (_, Msg.MOk es) => DcHello cmd (claim_of es)
+        | (_, Msg.MErr Msg.MConn) => DcConn
+        | (_, Msg.MErr _) => DcBad
+        | (_, Msg.MPanic) => DcPanic
+        end
+      else DcHello cmd None
+  | (_, Msg.MErr Msg.MConn) => DcConn
+  | (_, Msg.MErr _) => DcBad
+  | (_, Msg.MPanic) => DcPanic
+  end.
+
+(* bytes + what the peer does after them -> the [greeting] of the accept loop.
+   A Go panic in the reader would not be a greeting at all: it is kept apart
+   (GMalformed is NOT used for it) by [decode_panics]. *)
+Definition decode_wire (parses : bytes -> bool) (claim_of : list bytes -> option bytes) (cap : Z)
+           (tail : wire_tail) (w : bytes) : greeting :=
+  let '(fs, fe) := frames_of w in
+  match decode_frames parses claim_of cap fs with
+  | DcHello cmd c => GHello cmd c
+  | DcBad | DcPanic => GMalformed
+  | DcConn =>
+      match fe with
+      | FeBad => GMalformed
+      | _ => match tail with TClosed => GClosed | TSilent => GStall end
+      end
+  end.
+Definition decode_panics (parses : bytes -> bool) (claim_of : list bytes -> option bytes) (cap : Z) (w : bytes) : bool :=
+  match decode_frames parses claim_of cap (fst (frames_of w)) with DcPanic => true | _ => false end.
+
+(* a connection that sent exactly these bytes and keeps the socket open *)
+Definition decode_greeting (parses : bytes -> bool) (claim_of : list bytes -> option bytes) (cap : Z)
+           (w : bytes) : greeting := decode_wire parses claim_of cap TSilent w.
+
+(* ---- a concrete simple instance of the external parser / evaluator ------- *)
+(* Used by the correspondence run only, on ads whose expressions are
+   "Name = <integer | "string without quote or backslash">": split at the first
+   '=', TrimSpace both sides, attribute names compare case-insensitively, a
+   later assignment replaces an earlier one. *)
+Definition is_space (b : byte) : bool :=
+  let n := b2n b in ((n =? 32) || ((9 <=? n) && (n <=? 13)))%N.
+Fixpoint trim_left (s : bytes) : bytes :=
+  match s with [] => [] | b :: r => if is_space b then trim_left r else s end.
+Definition trim (s : bytes) : bytes := rev (trim_left (rev (trim_left s))).
+Fixpoint split_at_eq (s acc : bytes) : option (bytes * bytes) :=
+  match s with
+  | [] => None
+  | b :: r => if byte_eqb b x3d then Some (rev acc, r) else split_at_eq r (b :: acc)
+  end.
+Definition lower (b : byte) : byte :=
+  let n := b2n b in if ((65 <=? n) && (n <=? 90))%N then n2b (n + 32) else b.
+Definition simple_parses (s : bytes) : bool :=
+  match split_at_eq s [] with
+  | Some (name, _) => match trim name with [] => false | _ => true end
+  | None => false
+  end.
+Definition claimid_lc : bytes := [x63; x6c; x61; x69; x6d; x69; x64].   (* "claimid" *)
+Definition plain_string_char (b : byte) : bool := negb (byte_eqb b x22) && negb (byte_eqb b x5c).
+Definition simple_string (v : bytes) : option bytes :=
+  match v with
+  | q :: r =>
+      if byte_eqb q x22 then
+        match rev r with
+        | q2 :: inner => if byte_eqb q2 x22 && forallb plain_string_char inner then Some (rev inner) else None
+        | [] => None
+        end
+      else None
+  | [] => None
+  end.
+Fixpoint simple_claim_acc (es : list bytes) (cur : option bytes) : option bytes :=
+  match es with
+  | [] => cur
+  | e :: r =>
+      match split_at_eq e [] with
+      | Some (name, v) =>
+          if bytes_eqb (map lower (trim name)) claimid_lc
+          then simple_claim_acc r (simple_string (trim v))
+          else simple_claim_acc r cur
+      | None => simple_claim_acc r cur
+      end
+  end.
+Definition simple_claim_of (es : list bytes) : option bytes := simple_claim_acc es None.
